@@ -116,7 +116,7 @@ func (i *interpreter) ensureInit(pkg *ssa.Package) {
 // package-level state is not read by interpreted code).
 func noInitPkg(path string) bool {
 	switch path {
-	case "runtime", "reflect", "syscall", "unsafe", "os", "sync", "sync/atomic", "testing", "internal/reflectlite", "iter", "unique", "weak":
+	case "runtime", "reflect", "syscall", "unsafe", "os", "sync", "sync/atomic", "testing", "internal/reflectlite", "iter", "unique", "weak", "errors":
 		return true
 	}
 	return strings.HasPrefix(path, "runtime/") || strings.HasPrefix(path, "internal/") || strings.HasPrefix(path, "vendor/")
@@ -364,6 +364,11 @@ func visitInstr(fr *frame, instr ssa.Instruction) continuation {
 				panic(runtimePanic{fmt.Sprintf("index out of range [%d] with length %d", idx, len(x))})
 			}
 			fr.env[instr] = x[idx]
+		case SymString:
+			if idx < 0 || idx >= int64(len(x.B)) {
+				panic(runtimePanic{fmt.Sprintf("index out of range [%d] with length %d", idx, len(x.B))})
+			}
+			fr.env[instr] = x.B[idx]
 		default:
 			panic(engineError{fmt.Sprintf("unexpected x type in Index: %T", x)})
 		}
@@ -376,6 +381,12 @@ func visitInstr(fr *frame, instr ssa.Instruction) continuation {
 				panic(runtimePanic{fmt.Sprintf("index out of range [%d] with length %d", idx, len(s))})
 			}
 			fr.env[instr] = s[idx]
+		} else if ss, ok := x.(SymString); ok {
+			idx := asInt64(fr.concretize(fr.get(instr.Index), "index"))
+			if idx < 0 || idx >= int64(len(ss.B)) {
+				panic(runtimePanic{fmt.Sprintf("index out of range [%d] with length %d", idx, len(ss.B))})
+			}
+			fr.env[instr] = ss.B[idx]
 		} else {
 			fr.env[instr] = lookup(fr, instr, x, fr.get(instr.Index))
 		}
@@ -581,7 +592,11 @@ func callSSA(i *interpreter, caller *frame, callpos token.Pos, fn *ssa.Function,
 				i.env.buildPkg(pkg)
 			}
 			if fn.Blocks == nil {
-				panic(engineError{"no code for function: " + name})
+				st := ""
+				if caller != nil {
+					st = caller.stack()
+				}
+				panic(engineError{"no code for function: " + name + " [interp stack: " + st + "]"})
 			}
 		}
 	}
@@ -640,7 +655,8 @@ func runFrame(fr *frame) {
 			if re, ok := r.(runtime.Error); ok {
 				buf := make([]byte, 1<<14)
 				n := runtime.Stack(buf, false)
-				panic(engineError{fmt.Sprintf("host runtime error in %s: %v\n%s", fr.fn, re, buf[:n])})
+				_ = buf[:n]
+				panic(engineError{fmt.Sprintf("host runtime error in %s: %v [interp stack: %s]", fr.fn, re, fr.stack())})
 			}
 			panic(r)
 		}
